@@ -349,7 +349,17 @@ class ModelWriter:
                 if self.root.exists() and self.root.is_dir():
                     raise IOError("'%s' is an existing directory" % self.root.name)
                 else:
-                    shutil.move(self.temp_root, self.root)
+                    # shutil.move degrades to a copy if the temp dir is on
+                    # another device: copy next to the destination first,
+                    # then rename atomically
+                    part = self.root.with_name(self.root.name + ".part")
+                    try:
+                        shutil.move(self.temp_root, part)
+                        part.replace(self.root)
+                    except BaseException:
+                        if part.exists():
+                            part.unlink()
+                        raise
 
         finally:
             self.system.serializing = None
